@@ -100,8 +100,7 @@ func Verif_C17_ZAdd() {
 	policy := vr.Choose("policy", 3) // none NX XX
 	comp := vr.Choose("comp", 3)     // none GT LT
 	ch := vr.Choose("ch", 2) == 1
-	n := vr.Int("score")
-	vr.Assume(n >= -4 && n <= 4)
+	n := []int{-3, 0, 2}[vr.Choose("score", 3)] // stored scores are arbitrary doubles: every order relation occurs
 	score := float64(n)
 	m := vr.Tok("m")
 	argv := []string{"ZADD", k}
@@ -183,8 +182,7 @@ func Verif_C17_ZIncrBy() {
 	s := verifServer()
 	k := vr.Tok("k")
 	p := c17Preset(s, k, "z", 3)
-	n := vr.Int("incr")
-	vr.Assume(n >= -4 && n <= 4)
+	n := []int{-3, 0, 2}[vr.Choose("incr", 3)]
 	m := vr.Tok("m")
 	reply, err, panicked := verifRun(s, "ZINCRBY", k, strconv.Itoa(n), m)
 	vr.Assert(!panicked, "C17.zincrby.nopanic")
